@@ -34,7 +34,7 @@ def load_front():
 def run(rep, tier, seed):
     rnd = rng_for(seed, 'C15')
     b = Batch(rep)
-    n = 120 if tier == 'quick' else 1500
+    n = 250 if tier == 'quick' else 2500
     # (a) manager-level errors
     for i in range(n):
         stack, pkt, st, pd = gen_parsed(rnd, STACKS[i % len(STACKS)])
@@ -90,7 +90,7 @@ def run(rep, tier, seed):
     b.run()
     # (b) front end histories
     SCHC = load_front()
-    nh = 40 if tier == 'quick' else 400
+    nh = 80 if tier == 'quick' else 800
     for h in range(nh):
         nctx = rnd.randint(1, 4)
         stacks = [rnd.choice(STACKS) for _ in range(nctx)]
